@@ -37,7 +37,7 @@ pub assume_specification<T, E, F, O: FnOnce(E) -> Result<T, F>>[core::result::Re
 //@const lightning/src/ln/channelmanager.rs MIN_CLTV_EXPIRY_DELTA CLTV_FAR_FAR_AWAY MIN_FINAL_CLTV_EXPIRY_DELTA
 
 pub enum LocalHTLCFailureReason { FeeInsufficient, IncorrectCLTVExpiry, CLTVExpiryTooSoon, CLTVExpiryTooFar, OutgoingCLTVTooSoon, AmountBelowMinimum, UnknownNextPeer }
-pub struct UpdateAddHTLC { pub amount_msat: u64, pub cltv_expiry: u32 }
+pub struct UpdateAddHTLC { pub htlc_id: u64, pub amount_msat: u64, pub cltv_expiry: u32, pub skimmed_fee_msat: Option<u64> }   // (every numeric field of the message, so that a change reading another one is verified)
 #[derive(Clone, Copy)]
 pub struct ChannelConfig { pub forwarding_fee_proportional_millionths: u32, pub forwarding_fee_base_msat: u32, pub cltv_expiry_delta: u16 }
 pub struct ChannelContext { pub cfg: ChannelConfig, pub prev: Option<ChannelConfig>, pub counterparty_htlc_minimum_msat: u64 }
@@ -189,6 +189,10 @@ impl Mgr {
     } else { return Err(LocalHTLCFailureReason::UnknownNextPeer); }
 //@with
     } else { true }
+//@mutant skimmed_fee_tlv_counted_as_part_of_what_arrived
+    if next_hop.outgoing_amt_msat > msg.amount_msat {
+//@with
+    if next_hop.outgoing_amt_msat > msg.amount_msat.saturating_add(msg.skimmed_fee_msat.unwrap_or(0)) {
 //@end
 }
 // (P, C08) the end-to-end race is won for every height / expiry, given the acceptance postcondition
